@@ -151,7 +151,7 @@ def case_hostile(seed, out, spec, wd, idx):
         if stream_logger.rejected:
             out.count('logger_rejected_the_text')
     out.case({'k': kind, 'p': placement, 'n': ntp, 'm': merged, 'names': names,
-              'sib': [type(v).__name__ for v in values]}, nontrivial=True,
+              'sib': [snapcheck.type_name(v) for v in values]}, nontrivial=True,
              sample=dict(witness, delivered=len(st['snaps'])))
 
 
@@ -247,7 +247,7 @@ def case_churn(seed, out, spec, wd):
                                                         type(shared).__name__, size, ent.value, len(ent.children), limit))
             for n, v in (('before', values[0]), ('after', values[2])):
                 e = top.get(n)
-                if e is not None and (e.type != type(v).__name__ or len(e.children) != len(v)):
+                if e is not None and (e.type != snapcheck.type_name(v) or len(e.children) != len(v)):
                     probs.add('fidelity:value', 'sibling %r changed: %s with %d children' % (n, e.type, len(e.children)))
             snapcheck.check_closed(s, probs)
             if not wide:     # (the hand-built action of the wide flavour carries numbers where the wire has text)
